@@ -85,8 +85,10 @@ where
         key_bundle.verify()?;
         let existing = y.identities.insert(id, *key_bundle.identity_key());
         if let Some(existing) = existing {
-            // Sanity check.
-            assert_eq!(&existing, key_bundle.identity_key());
+            // The bundle was sent by a remote peer, it can contain any identity key.
+            if &existing != key_bundle.identity_key() {
+                return Err(KeyRegistryError::IdentityKeyMismatch);
+            }
         }
         y.longterm_bundles
             .entry(id)
@@ -206,6 +208,9 @@ pub enum KeyRegistryError {
 
     #[error("all available key bundles of this member expired")]
     KeyBundlesExpired,
+
+    #[error("key bundle contains a different identity key than the one known for this member")]
+    IdentityKeyMismatch,
 }
 
 #[cfg(test)]
